@@ -27,9 +27,9 @@ RatioFails(e) ==
   \cup (IF e.a = e.b => e.ab6 = 1000000 THEN {} ELSE {"RatioDiagonal"})
   \cup (IF e.ab6 >= 21000000 => {e.a, e.b} = {Black, White} THEN {} ELSE {"Ratio21"})
   \cup (IF {e.a, e.b} = {Black, White} => e.ab6 = 21000000 THEN {} ELSE {"Ratio21"})
-  \* nearly equal luminances (different colours): ratio - 1 = dL / (L_lo + 0.05), resolved to 2 millionths
+  \* nearly equal luminances (different colours): ratio - 1 = dL / (L_lo + 0.05), resolved to 3 millionths (table error 0.6 + two floors)
   \cup (LET d == LHi(e.a, e.b) - LLo(e.a, e.b) IN
-        IF d <= 2000 /\ Abs((e.ab6 - 1000000) - (d * 1000000) \div (LLo(e.a, e.b) + Flare)) > 2 THEN {"RatioNearOne"} ELSE {})
+        IF d <= 2000 /\ Abs((e.ab6 - 1000000) - (d * 1000000) \div (LLo(e.a, e.b) + Flare)) > 3 THEN {"RatioNearOne"} ELSE {})
 
 LevelFails(e) ==
   IF e.lvl = PointLevel(e.pt, e.large) THEN {} ELSE {"LevelThreshold"}
